@@ -607,6 +607,9 @@ class JSExec(GoExec, SpecMixin, CallsMixin):
 
     def arr_write(self, st, a, i, v, line):
         h = self.heap(st)
+        if isinstance(v, MaybeNaN):
+            self.oblige(st, 'stored-value-not-NaN@%s' % line, z3.Not(v.nan), src=line)
+            v = v.val
         if a.kind == 'u8':
             v = self.touint32(v) % 256
         if a.off is not None: i = a.off + i
@@ -644,7 +647,8 @@ class JSExec(GoExec, SpecMixin, CallsMixin):
             return f
         if isinstance(obj, JSObj):
             if name == 'constructor':
-                return JSFunc('ctor:' + (obj.ctor or '?'))
+                f = JSFunc('ctor:' + (obj.ctor or '?')); f.of = obj
+                return f
             if name in obj.fields:
                 return obj.fields[name]
             if name == 'nativeArray' and '$isArray' in obj.fields:
@@ -654,6 +658,9 @@ class JSExec(GoExec, SpecMixin, CallsMixin):
                 return JSFunc('elem.zero')
             raise Unsupported('object has no modelled field %s' % name)
         if isinstance(obj, JSFunc):
+            of = getattr(obj, 'of', None)
+            if name == 'elem' and isinstance(of, JSObj) and '$elemtype' in of.fields:
+                return of.fields['$elemtype']
             return JSFunc(obj.name + '.' + name)
         if isinstance(obj, z3.ExprRef) and name == 'constructor' and not z3.is_bool(obj):
             return JSFunc('Number')
@@ -684,15 +691,11 @@ class JSExec(GoExec, SpecMixin, CallsMixin):
             st.ghost[('jsheap',)] = z3.Store(h, ident, z3.K(I, z3.IntVal(0)))
             a = JSArr(ident, n, 'num'); a.fresh = True
             return a
-        if isinstance(callee, JSFunc) and callee.name == 'Uint8Array':
+        if isinstance(callee, JSFunc) and callee.name in ('Uint8Array', 'Int32Array', 'Uint16Array', 'Uint32Array', 'Int8Array', 'Int16Array'):
             n = args[0]
-            ident = fresh('arr.id'); st.assume(ident > 0)
-            for r in st.meta.get('arrids', []): st.assume(ident != r)
-            st.meta['arrids'] = st.meta.get('arrids', []) + [ident]
+            a = self.new_array(st, n, 'u8' if callee.name == 'Uint8Array' else 'num', plain=z3.BoolVal(False))
             h = self.heap(st)
-            st.ghost[('jsheap',)] = z3.Store(h, ident, z3.K(I, z3.IntVal(0)))
-            a = JSArr(ident, n, 'u8')
-            a.fresh = True
+            st.ghost[('jsheap',)] = z3.Store(h, a.ident, z3.K(I, z3.IntVal(0)))
             return a
         if isinstance(callee, JSFunc) and callee.name == 'Array':
             n = args[0]
@@ -1078,7 +1081,10 @@ class JSExec(GoExec, SpecMixin, CallsMixin):
     def old_binds(self, env):
         """names inside old(...) denote the JS locals of the entry state (array contents are read from the entry heap); bound
         quantifier variables and `result` keep their current binding"""
-        b = self.spec_binds(env.old)
+        if getattr(env, 'call_site', False):
+            b = dict(env.binds_old)          # a callee contract at a call site: parameters as bound before the call
+        else:
+            b = self.spec_binds(env.old)
         for k, v in env.binds.items():
             if k not in b:
                 b[k] = v
@@ -1161,7 +1167,7 @@ class JSExec(GoExec, SpecMixin, CallsMixin):
             off, ln, cap = [self.make_param(st, name + f, 'nat') for f in ('.$offset', '.$length', '.$capacity')]
             nil = fresh(name + '.nil', B)
             st.pc += [ln <= cap, off + cap <= arr.length, z3.Implies(nil, z3.And(ln == 0, cap == 0))] if self.mode != 'bv' else []
-            return JSObj({'$array': arr, '$offset': off, '$length': ln, '$capacity': cap, '$nil': nil}, ctor='Slice', ref=fresh('obj'))
+            return JSObj({'$array': arr, '$offset': off, '$length': ln, '$capacity': cap, '$nil': nil, '$elemtype': self.make_param(st, name + '.elem', 'elemtype')}, ctor='Slice', ref=fresh('obj'))
         if ty == 'elemtype':
             return JSObj({'kind': self.make_param(st, name + '.kind', 'nat')}, ctor='Type', ref=fresh('obj'))
         if ty == 'slicetype':
@@ -1391,19 +1397,35 @@ class JSExec(GoExec, SpecMixin, CallsMixin):
                 lo, hi = (self.num(rng[0]), self.num(rng[1]))
                 self.oblige(st, 'pre-type@call %s(%s)@%s' % (name, pname(p), line), z3.And(v >= lo, v <= hi), src=line)
         old = st.clone()
+        self._pre_binds = dict(binds)
         envp = SpecEnv(st, binds, old)
         for cl in c.get('requires'):
             self.oblige(st, 'pre@call %s@%s' % (name, line), self.sev_bool(envp, cl.expr), src=line)
         tcs = [self.sev_bool(envp, cl.expr) for cl in c.get('throws_if')]
         if tcs and self.fork(st, z3.Or(tcs) if len(tcs) > 1 else tcs[0]):
             raise PanicEx(c.get('throws_msg')[0].text.strip() if c.get('throws_msg') else 'callee %s throws' % name)
+        for cl in c.get('assigns'):
+            for target in cl.text.split(','):
+                m = re.match(r'\s*arr\((\w+)\)\s*$', target)
+                if not m: continue
+                pi = [pname(p) for p in fn['params']].index(m.group(1))
+                a = argv[pi]
+                if isinstance(a, JSArr):
+                    h = self.heap(st)
+                    st.ghost[('jsheap',)] = z3.Store(h, a.ident, fresh('hv.arr', ArrII))
+        # re-bind array arguments to the post-call heap
+        for p, v in zip(fn['params'], argv):
+            binds[pname(p)] = self.to_spec(st, v)
         rt = c.get('returns')[0].text.strip() if c.get('returns') else None
         if rt is None:
             first = pt.get(pname(fn['params'][0])) if fn['params'] else None
             rt = first if first in ('i64', 'u64') else 'num'
-        res = self.make_param(st, 'r.' + name.strip('$'), rt)
-        rb = dict(binds); rb['result'] = self.to_spec(st, res)
+        res = UNDEF if rt == 'undef' else self.make_param(st, 'r.' + name.strip('$'), rt)
+        rb = dict(binds)
+        if res is not UNDEF: rb['result'] = self.to_spec(st, res)
         envq = SpecEnv(st, rb, old)
+        envq.binds_old = dict(self._pre_binds)
+        envq.call_site = True
         for cl in c.get('ensures'):
             try:
                 st.assume(self.sev_bool(envq, cl.expr))
